@@ -62,6 +62,9 @@ func c15Menu() []c15Rec {
 	tables = append(tables,
 		[]gts.Feature{c15Feature("f1", "gene", gts.Joined{gts.Range(0, 2), gts.Range(3, 6), gts.Range(7, 12)}), c15Feature("f2", "CDS", gts.Range(4, 5)), c15Feature("f3", "CDS", gts.Range(8, 11)), c15Feature("f4", "CDS", gts.Range(0, 1))},
 		[]gts.Feature{c15Feature("f1", "gene", gts.Complemented{Location: gts.Joined{gts.Range(0, 2), gts.Range(3, 5), gts.Range(6, 8), gts.Range(9, 12)}}), c15Feature("f2", "CDS", gts.Range(3, 4)), c15Feature("f3", "CDS", gts.Range(7, 8)), c15Feature("f4", "CDS", gts.Range(10, 12))})
+	// complement-strand spliced regions with an odd number of parts
+	tables = append(tables,
+		[]gts.Feature{c15Feature("f1", "CDS", gts.Complemented{Location: gts.Joined{gts.Range(0, 3), gts.Range(4, 7), gts.Range(9, 12)}}), c15Feature("f2", "gene", gts.Range(5, 6)), c15Feature("f3", "gene", gts.Complemented{Location: gts.Range(4, 7)})})
 	var out []c15Rec
 	for ti, t := range tables {
 		for _, circ := range []bool{false, true} {
